@@ -62,7 +62,7 @@ package keygen
 
 // the verification goroutine for peer j: exactly one result is sent; a result without an error carries peer j's verified commitment row
 //@ func (*round3).Start$1
-//@   props C06 C05 C03 C15
+//@   props C06 C05 C03 C15 C17
 //@   requires round != nil && round.round2 != nil && round.round2.round1 != nil && round.round2.round1.base != nil
 //@   requires edKgWF(round)
 //@   requires 0 <= j && j < kgN(round) && j != round.Parameters.partyID.Index && ch != nil && len(ContextJ) <= 1048576
@@ -72,7 +72,8 @@ package keygen
 //@   ensures sent(ch) == old(sent(ch)) + 1
 //@   ensures [C03.a-result-without-error-carries-a-verified-commitment-row] isnil(sentf(ch, old(sent(ch)), "unWrappedErr")) ==> (kgRowEd(round, sentf(ch, old(sent(ch)), "pjVs")) && fresh(sentf(ch, old(sent(ch)), "pjVs")))
 //@   ensures [C20.curve-field-rewritten-with-same-value] fieldheap("crypto.ECPoint", "curve") == old(fieldheap("crypto.ECPoint", "curve"))
-//@   loop 0 invariant (forall c in 0..$iter :: (validPoint(PjVs[c]) && PjVs[c].curve == round.Parameters.ec)) && (forall c in $iter..len(PjVs) :: (validPoint(PjVs[c]) && PjVs[c].curve == round.Parameters.ec)) && (isnil(PjVs) || fresh(PjVs))
+//@   ensures [C17.every-accepted-commitment-is-cofactor-cleared] isnil(sentf(ch, old(sent(ch)), "unWrappedErr")) ==> (forall c in 0..len(sentf(ch, old(sent(ch)), "pjVs")) :: torsionfree(round.Parameters.ec, px(sentf(ch, old(sent(ch)), "pjVs")[c]), py(sentf(ch, old(sent(ch)), "pjVs")[c])))
+//@   loop 0 invariant (forall c in 0..$iter :: torsionfree(round.Parameters.ec, px(PjVs[c]), py(PjVs[c]))) && (forall c in 0..$iter :: (validPoint(PjVs[c]) && PjVs[c].curve == round.Parameters.ec)) && (forall c in $iter..len(PjVs) :: (validPoint(PjVs[c]) && PjVs[c].curve == round.Parameters.ec)) && (isnil(PjVs) || fresh(PjVs))
 
 //@ define kgChRes(round, ch) = (isnil(sentf(ch, 0, "unWrappedErr")) ==> kgRowEd(round, sentf(ch, 0, "pjVs")))
 //@ func (*round3).Start
